@@ -17,7 +17,7 @@ def main():
     args = [a for a in args if a != '--copy']
     env = dict(os.environ)
     if copy:
-        REPO = '/tmp/priv_recheck'
+        REPO = '/tmp/priv_recheck_%d' % os.getpid()
         sh('rm -rf %s && cp -r /repo %s' % (REPO, REPO))
         env.update(PYGAM_REPO=REPO, PYTHONPATH='%s:%s' % (HERE, REPO), OMP_NUM_THREADS='1', OPENBLAS_NUM_THREADS='1', MKL_NUM_THREADS='1')
     ids = args or sorted(os.listdir(os.path.join(HERE, 'seeded')))
